@@ -1034,3 +1034,86 @@ fn set_has_drain_join_or_subquery(body: &SetExpr, ctes: &[Cte]) -> bool {
     );
     found.get()
 }
+
+/// Strings sharing prefixes longer than the 12-byte sort-key prefix, plus
+/// short ones, the empty string and multi-byte code points.
+pub const SORT_TEXT_POOL: &[&str] = &[
+    "abcdefghijkl", "abcdefghijklm", "abcdefghijklA", "abcdefghijklz", "abcdefghijkl0", "abcdefghijklmnopqrstuvwxyz", "abcdefghijklmnopqrstuvwxyZ",
+    "abcdefghijk", "abcdefghijkm", "", "a", "b", "Z", "zz", "éa", "éb", "日本", "日本語のテキストです", "日本語のテキストでした",
+];
+
+/// Tables shaped for sort stress: few distinct values in the leading integer
+/// column (many ties), text from `SORT_TEXT_POOL`, doubles and booleans.
+pub fn gen_sort_tables(rng: &mut Rng, max_rows: usize) -> Vec<TableDef> {
+    let nt = 1 + rng.usize_below(2);
+    let mut out = Vec::new();
+    for t in 0..nt {
+        let cols = vec![(format!("i{t}0"), Ty::Int), (format!("s{t}1"), Ty::Text), (format!("f{t}2"), Ty::Dbl), (format!("b{t}3"), Ty::Bool), (format!("g{t}4"), Ty::Big)];
+        let nrows = match rng.below(6) {
+            0 => rng.usize_below(4),
+            _ => 5 + rng.usize_below(max_rows.max(6) - 5),
+        };
+        let span = *rng.pick(&[1i64, 2, 3, 5]);
+        let nulls = *rng.pick(&[0u64, 1, 3]);
+        let mut rows: Vec<Row> = Vec::with_capacity(nrows);
+        for _ in 0..nrows {
+            let mut r = Vec::new();
+            for (ci, (_, ty)) in cols.iter().enumerate() {
+                if nulls > 0 && rng.below(10) < nulls {
+                    r.push(Value::Null);
+                    continue;
+                }
+                r.push(match (ci, ty) {
+                    (0, _) => Value::Int(rng.range(0, span) as i128),
+                    (_, Ty::Text) => Value::Str(SORT_TEXT_POOL[rng.usize_below(SORT_TEXT_POOL.len())].to_string()),
+                    (_, Ty::Dbl) => Value::Float(rng.range(-4, 8) as f64 / 4.0),
+                    (_, Ty::Bool) => Value::Bool(rng.chance(1, 2)),
+                    _ => Value::Int(rng.range(-3, 3) as i128),
+                });
+            }
+            rows.push(r);
+        }
+        out.push(TableDef { name: format!("t{t}"), data: TableData { cols, rows } });
+    }
+    out
+}
+
+impl<'t> Gen<'t> {
+    /// `SELECT cols FROM t ORDER BY 2-4 keys (every direction / NULLS placement)
+    /// [LIMIT l] [OFFSET o]` with limits around the input size.
+    pub fn gen_sort_query(&mut self) -> Query {
+        self.counter = 0;
+        let t = &self.tables[self.rng.usize_below(self.tables.len())];
+        let alias = self.fresh("r");
+        let n = t.data.rows.len() as u64;
+        let mut idx: Vec<usize> = (0..t.data.cols.len()).collect();
+        self.rng.shuffle(&mut idx);
+        let ncols = 2.max(1 + self.rng.usize_below(idx.len())).min(idx.len());
+        idx.truncate(ncols);
+        let items: Vec<SelectItem> = idx
+            .iter()
+            .enumerate()
+            .map(|(i, ci)| SelectItem { expr: Expr::Col { rel: alias.clone(), name: t.data.cols[*ci].0.clone(), ty: t.data.cols[*ci].1, style: ColStyle::Qualified }, alias: format!("c{i}"), print_alias: true })
+            .collect();
+        let out: Vec<(String, Ty)> = items.iter().map(|i| (i.alias.clone(), i.expr.ty())).collect();
+        let nkeys = 1 + self.rng.usize_below(ncols.min(4));
+        let mut key_cols: Vec<usize> = (0..ncols).collect();
+        self.rng.shuffle(&mut key_cols);
+        key_cols.truncate(nkeys);
+        let order_by: Vec<OrderItem> = key_cols
+            .iter()
+            .map(|c| OrderItem { col: *c, by_alias: self.rng.chance(1, 3), desc: self.rng.chance(1, 2), nulls: *self.rng.pick(&[NullsOrder::Default, NullsOrder::First, NullsOrder::Last]) })
+            .collect();
+        let (mut limit, mut offset) = (None, None);
+        if self.rng.chance(1, 2) {
+            let cands = [0u64, 1, 2, 3, n / 2, n.saturating_sub(1), n, n + 1];
+            limit = Some(*self.rng.pick(&cands));
+            if self.rng.chance(1, 2) {
+                offset = Some(*self.rng.pick(&[0u64, 1, 2, n / 2, n.saturating_sub(1), n]));
+            }
+        }
+        let from = From::Table { name: t.name.clone(), alias, cols: t.data.cols.clone() };
+        let sel = Select { distinct: false, items, from: Some(from), where_: None, group_by: GroupBy::None, having: None };
+        Query { ctes: vec![], body: SetExpr::Select(Box::new(sel)), order_by, limit, offset, out }
+    }
+}
